@@ -33,7 +33,7 @@ fn inert_strings(toks: &[Tok]) -> (Vec<Tok>, usize) {
                 if inner_len > 0 && rest[1..rest.len() - 1].chars().any(|c| c != 'x') {
                     n += 1;
                 }
-                Tok { s: format!("{}{}{}{}", prefix, q, "x".repeat(inner_len), q), ws_only_before: t.ws_only_before }
+                Tok { s: format!("{}{}{}{}", prefix, q, "x".repeat(inner_len), q), ws_only_before: t.ws_only_before, glue_ok: t.glue_ok }
             } else {
                 t.clone()
             }
@@ -181,7 +181,7 @@ pub fn run(ctx: &Ctx) -> i32 {
     run_workload(ctx, &mut acc, "generated", n, |k, rng, acc| {
         let mut cfg = if k % 4 == 0 { Cfg::hostile() } else { Cfg::normal() };
         if cfg.pragma.is_some() {
-            cfg.pragma = Some(rng.ps(&["0.8.17", "0.7.6", "0.8.3", "^0.6.12", "0.8.4", ">=0.7.0 <0.9.0", ">=0.8.0 <0.8.4", ">= 0.6.0 < 0.8.5", "0.7.6 || ^0.8.4", "^0.7.0 || ^0.8.0"]).to_string());
+            cfg.pragma = Some(rng.ps(&["0.8.17", "0.7.6", "0.8.3", "^0.6.12", "0.8.4", ">=0.7.0 <0.9.0", ">=0.8.0 <0.8.4", ">= 0.6.0 < 0.8.5", "0.7.6 || ^0.8.4", "^0.7.0 || ^0.8.0", ">=0.6.2 <0.7.0 || ^0.8.0", ">=0.8.4 <0.7.9", "~0.8.3", "^ 0.8.4"]).to_string());
             cfg.safemath = rng.chance(1, 3);
         }
         if let Some(tp) = progsrc::generated(k, rng, cfg, acc) {
